@@ -48,6 +48,10 @@ def run(F, rep, tier):
     scope_rules(F, rep, "SCOPE")
     lookup_order(F, rep)
     shadowing_is_never_an_error(F, rep)
+    # a longer or shorter name moves what stands to the right of it: no column of a span reaches the emitted bytes (the line that does -
+    # in the message of `<!>` - is not moved by a renaming; shared with C14/C08)
+    import core, c14
+    core.borrow(rep, c14.no_layout_flow, lambda o: o["rule"] == "NO-LAYOUT-FLOW" and o["key"] in ("span-projections", "no-span-calls"), F)
     qualified_lookup(F, rep)
     decl_order(F, rep)
     visit_resolver(F, rep)
